@@ -169,6 +169,9 @@ mod verif_validate {
                 let n = rng.below(3) as usize;
                 let nt = if n == 0 { 0 } else { rng.below(n as u64 + 1) as usize };
                 let mut ds = DrawState::default();
+                if rng.below(2) == 0 {
+                    ds.alignment = crate::MultiProgressAlignment::Bottom;
+                }
                 for k in 0..n {
                     let l = rng.below(2 * w as u64 + 1) as usize;
                     let letter = if k < nt { b'a' + k as u8 } else { b'A' + k as u8 };
